@@ -199,24 +199,33 @@ func CredScan(pass string) func(string) bool {
 	}
 }
 
-func rawMech(t, host string) smtp.Auth {
+// passOf: the password of the scenario; variant "longcred" uses one of several hundred characters (a passphrase, a token), so that
+// the lines of the exchange are longer than 512 octets.
+func passOf(cfg Cfg) string {
+	if cfg.Variant == "longcred" {
+		return Pass + strings.Repeat("-long-0123456789abcdef", 20)
+	}
+	return Pass
+}
+
+func rawMech(t, host, pass string) smtp.Auth {
 	switch t {
 	case "PLAIN":
-		return smtp.PlainAuth("", User, Pass, host, false)
+		return smtp.PlainAuth("", User, pass, host, false)
 	case "PLAIN-NOENC":
-		return smtp.PlainAuth("", User, Pass, host, true)
+		return smtp.PlainAuth("", User, pass, host, true)
 	case "LOGIN":
-		return smtp.LoginAuth(User, Pass, host, false)
+		return smtp.LoginAuth(User, pass, host, false)
 	case "LOGIN-NOENC":
-		return smtp.LoginAuth(User, Pass, host, true)
+		return smtp.LoginAuth(User, pass, host, true)
 	case "CRAM-MD5":
-		return smtp.CRAMMD5Auth(User, Pass)
+		return smtp.CRAMMD5Auth(User, pass)
 	case "XOAUTH2":
-		return smtp.XOAuth2Auth(User, Pass)
+		return smtp.XOAuth2Auth(User, pass)
 	case "SCRAM-SHA-1":
-		return smtp.ScramSHA1Auth(User, Pass)
+		return smtp.ScramSHA1Auth(User, pass)
 	}
-	return smtp.ScramSHA256Auth(User, Pass)
+	return smtp.ScramSHA256Auth(User, pass)
 }
 
 var authTypes = map[string]mail.SMTPAuthType{
@@ -832,7 +841,7 @@ func (rn *Runner) Run() {
 			return
 		}
 	}
-	scan := CredScan(Pass)
+	scan := CredScan(passOf(cfg))
 	caps := append([]string{}, cfg.Caps...)
 	caps2 := append([]string{}, cfg.Caps2...)
 	if len(cfg.Authlist) > 0 {
@@ -858,7 +867,7 @@ func (rn *Runner) Run() {
 	}
 	if cfg.Authtype != "" && cfg.Authtype != "NOAUTH" {
 		scfg.Auth = func(st *tls.ConnectionState) refsmtp.AuthHandler {
-			return &refsmtp.HonestAuth{Creds: sasl.Creds{User: User, Pass: Pass}, NormUser: User, NormPass: Pass,
+			return &refsmtp.HonestAuth{Creds: sasl.Creds{User: User, Pass: passOf(cfg)}, NormUser: User, NormPass: passOf(cfg),
 				Salt: []byte("verif-salt-0123"), Iter: 64, NonceSuffix: "srvNonce" + fmt.Sprint(rn.T),
 				Challenge: fmt.Sprintf("<%d.verif@refsmtp.test>", rn.T), TLS: st}
 		}
@@ -1039,7 +1048,7 @@ func (rn *Runner) Run() {
 	if at, ok := authTypes[cfg.Authtype]; ok {
 		add(mail.WithSMTPAuth(at), func(c *mail.Client) { c.SetSMTPAuth(at) })
 		add(mail.WithUsername(User), func(c *mail.Client) { c.SetUsername(User) })
-		add(mail.WithPassword(Pass), func(c *mail.Client) { c.SetPassword(Pass) })
+		add(mail.WithPassword(passOf(cfg)), func(c *mail.Client) { c.SetPassword(passOf(cfg)) })
 	}
 	if cfg.Debug {
 		tap := &logTap{r: r, scan: scan, mute: &warmPhase}
@@ -1229,7 +1238,7 @@ func (rn *Runner) Run() {
 				})
 				defer setHook(id, nil)
 			}
-			aerr = sc2.Auth(rawMech(cfg.Authtype, host))
+			aerr = sc2.Auth(rawMech(cfg.Authtype, host, passOf(cfg)))
 		})
 		r.Emit("ret", "op", "RawAuth", "err", aerr != nil, "elapsed", el, "text", clip(aerr))
 		r.Emit("authret")
@@ -1238,7 +1247,7 @@ func (rn *Runner) Run() {
 			// records of the second exchange are redacted like those of the first (the design model stops at the first
 			// return: the extra commands show up as conformance drift of this stage, not as a verdict)
 			var aerr2 error
-			el2 := rn.timed(func() { aerr2 = sc2.Auth(rawMech(cfg.Authtype, host)) })
+			el2 := rn.timed(func() { aerr2 = sc2.Auth(rawMech(cfg.Authtype, host, passOf(cfg))) })
 			r.Emit("ret", "op", "RawAuth2", "err", aerr2 != nil, "elapsed", el2, "text", clip(aerr2))
 			r.Emit("authret")
 			if aerr2 == nil {
